@@ -1159,3 +1159,28 @@ Proof.
       inversion E; subst. exists st, st1, k. auto.
   - destruct (c4_addr cx) as [a0|]; [inversion H; subst; auto | destruct obs; discriminate].
 Qed.
+
+Lemma new_context6_fields pf vrf at6 :
+  let cx := new_context6 pf vrf at6 in
+  c6_pf cx = pf /\ c6_vrf cx = vrf /\ c6_napool cx = None /\ c6_pdpool cx = None /\
+  (forall b, c6_na cx = Some b <-> pf <> 0 /\ exists a, at_v6 at6 = AvStr (Some a) /\ b = go_parse_ip a) /\
+  (forall p, c6_pd cx = Some p <->
+             pf <> 0 /\ exists a len, at_pd at6 = AvStr (Some (a, len)) /\ go_parse_cidr a len = Some p) /\
+  c6_naov cx = (if N.eqb pf 0 then 0 else match at_napool at6 with AvStr n => n | _ => 0 end) /\
+  c6_pdov cx = (if N.eqb pf 0 then 0 else match at_pdpool at6 with AvStr n => n | _ => 0 end).
+Proof.
+  unfold new_context6. destruct (N.eqb_spec pf 0) as [->|NZ];
+    cbn [c6_pf c6_vrf c6_napool c6_pdpool c6_na c6_pd c6_naov c6_pdov].
+  - split; [reflexivity|]. split; [reflexivity|]. split; [reflexivity|]. split; [reflexivity|].
+    split; [intros b; split; [discriminate | intros [HH _]; contradiction]|].
+    split; [intros p; split; [discriminate | intros [HH _]; contradiction]|]. split; reflexivity.
+  - split; [reflexivity|]. split; [reflexivity|]. split; [reflexivity|]. split; [reflexivity|]. split; [|split; [|split]].
+    + intros b. split.
+      * intros H. split; [exact NZ|]. destruct (at_v6 at6) as [| |[a|]]; cbn in H; try discriminate. inversion H. eauto.
+      * intros [_ [a [E ->]]]. rewrite E. reflexivity.
+    + intros p. split.
+      * intros H. split; [exact NZ|]. destruct (at_pd at6) as [| |[[a len]|]]; cbn in H; try discriminate. eauto.
+      * intros [_ [a [len [E P]]]]. rewrite E. exact P.
+    + destruct (at_napool at6); reflexivity.
+    + destruct (at_pdpool at6); reflexivity.
+Qed.
